@@ -5,6 +5,7 @@ CONSTANTS
   MinNodes = 4
   MaxDepth = 3
   MaxBlock = 3
+  Kinds <- AllKinds
   Rich = TRUE
 INVARIANT DesignFaithful
 INVARIANT DeviationsExplain
